@@ -891,7 +891,7 @@ def c01(tier):
                         "step the PUBLISH packets on every connection (topic, payload bytes, QoS, retain flag) are compared with the specification's bag. "
                         "Concurrent part: recorded runs with several raw publishers and two concurrent Server.Publish goroutines towards different subscriber "
                         "sets, validated by TLC against OutStreamTrace (every subscriber gets every message of every publisher it is subscribed to, in order, and nothing else).",
-                        extra=lambda v: fanin_validate(v, "C01", tier))
+                        extra=lambda v: (fanin_validate(v, "C01", tier), q2many(v, tier, pid="C01", own={"C01"})))
 
 
 def q2many(v, tier, pid="C02", own=None, orderonly=False):
@@ -909,18 +909,19 @@ def q2many(v, tier, pid="C02", own=None, orderonly=False):
 
 @check("C02")
 def c02(tier):
-    return broker_check("C02", tier, [("QosSpec", "paths", 6, 7, "mockSuccess"), ("QosStraySpec", "paths", 6, 7, "mockSuccess")], {"C02", "C01"},
+    return broker_check("C02", tier, [("QosSpec", "paths", 6, 7, "mockSuccess"), ("QosStraySpec", "paths", 6, 7, "mockSuccess"), ("QosResumeSpec", "paths", 6, 7, "mockSuccess")], {"C02", "C01"},
                         "configuration qosrx: all operation sequences over QoS 2 PUBLISH (2 ids, DUP repeats with other content), PUBREL (3 ids incl. "
                         "unknown), QoS 1 PUBLISH and 6 KB unrelated traffic that wraps the ring; acks on the publisher, hand-over to a witness subscriber. "
                         "Configuration qosstray: two exchanges released in any order with stray PUBREC / PUBCOMP / PUBACK / SUBACK / UNSUBACK packets that carry "
-                        "the identifier of an open exchange in between. "
+                        "the identifier of an open exchange in between. Configuration qosresume: exchanges that span connections of one client identifier "
+                        "(PUBLISH and PUBREC on one connection, PUBREL on the next; CleanSession 0 and 1, DISCONNECT and cut). "
                         "Plus TLC -simulate behaviours with up to 40 exchanges open at once (the incoming queue grows while its head has moved).",
                         extra=lambda v: q2many(v, tier), frag_item=0)
 
 
 @check("C07")
 def c07(tier):
-    return broker_check("C07", tier, [("SubsSpec", "cover", 5, 6, "mockSuccess"), ("SubsSpec", "paths", 2, 3, "mockSuccess"), ("SubsSpec", "cover", 4, 5, "mockSuccess", 1), ("SubsLastSpec", "paths", 5, 6, "mockSuccess"), ("SubsBigSpec", "paths", 3, 4, "mockSuccess")], {"C07", "C01", "C08"},
+    return broker_check("C07", tier, [("SubsSpec", "cover", 5, 6, "mockSuccess"), ("SubsSpec", "paths", 2, 3, "mockSuccess"), ("SubsSpec", "cover", 4, 5, "mockSuccess", 1), ("SubsLastSpec", "paths", 5, 6, "mockSuccess"), ("SubsBigSpec", "paths", 3, 4, "mockSuccess"), ("Sess1LastSpec", "paths", 7, 8, "mockSuccess")], {"C07", "C01", "C08"},
                         "configuration subs: SUBSCRIBE requests with 1..9 filters incl. invalid filters and QoS 3, two packet ids, UNSUBSCRIBE lists of 1..9, "
                         "probe publishes from a second client; SUBACK/UNSUBACK bytes and subsequent deliveries compared.", frag_item=1)
 
@@ -952,7 +953,7 @@ def c10(tier):
 
 @check("C11")
 def c11(tier):
-    return broker_check("C11", tier, [("AdmitSpec", "cover", 4, 5, "mockSuccess"), ("AdmitSpec", "paths", 2, 3, "mockSuccess"), ("FormSpec", "cover", 4, 5, "mockSuccess"), ("FormSpec", "paths", 2, 3, "mockSuccess"), ("AuthSpec", "cover", 3, 3, "mockFailure"), ("SelSpec", "cover", 6, 7, "verifSelective")], {"C11", "C01", "C10", "C07"},
+    return broker_check("C11", tier, [("AdmitSpec", "cover", 4, 5, "mockSuccess"), ("AdmitSpec", "paths", 2, 3, "mockSuccess"), ("FormSpec", "cover", 4, 5, "mockSuccess"), ("FormSpec", "paths", 2, 3, "mockSuccess"), ("AuthSpec", "cover", 3, 3, "mockFailure"), ("SelSpec", "cover", 6, 7, "verifSelective"), ("PwSpec", "paths", 4, 5, "verifPassword")], {"C11", "C01", "C10", "C07"},
                         "configuration admit: 14 kinds of refused first packets (unsupported level, name mismatch, client id too long / unprintable / empty with "
                         "CleanSession 0, reserved flag, will flags, other packet types, truncated CONNECT, garbage, bad fixed-header flags) with follow-up "
                         "SUBSCRIBE '#' and retained PUBLISH on the refused connection, accepting and rejecting authenticators; CONNACK bytes, closure, witness "
